@@ -15,7 +15,7 @@ TIERS = {
     # NDocs, MaxFaults, MaxCrashes, MaxStarts, cap on schedules replayed
     "quick": dict(NDocs=2, MaxFaults=1, MaxCrashes=1, MaxStarts=2, cap=3000,
                   # second pass: two external faults before one killed start (leftovers that only matter once the index is lost too)
-                  extra=dict(NDocs=2, MaxFaults=2, MaxCrashes=1, MaxStarts=2, cap=1500)),
+                  extra=dict(NDocs=2, MaxFaults=2, MaxCrashes=1, MaxStarts=2, cap=4000)),
     "thorough": dict(NDocs=3, MaxFaults=2, MaxCrashes=2, MaxStarts=3, cap=40000),
 }
 
@@ -194,10 +194,15 @@ def run(chk):
     if p.get("extra"):
         import random
         q = p["extra"]
+        # two faults, then a killed start, then a start that runs to the end and is asked
         more = [v for v in emit(chk, q)
                 if sum(1 for h in v["hist"] if h["k"] == "fault") == 2
-                and any(h["k"].startswith("run") and h["what"] != "ready" for h in v["hist"])]
+                and [h["k"][:3] for h in v["hist"][-2:]] == ["run", "run"]
+                and v["hist"][-2]["what"] != "ready" and v["hist"][-1]["what"] == "ready"]
         total += len(more)
+        # "metadata missing" in each of its realisations (deleted, left as meta.json.tmp, left as meta.json.bak)
+        more = [dict(v, real=r) for v in more
+                for r in ((0, 1, 2) if any(h["what"] == "meta_Absent" for h in v["hist"]) else (0,))]
         random.Random(chk.seed + 1).shuffle(more)
         vecs = vecs + more[:q["cap"]]
     info, results, events = run_schedules(chk, vecs, p["NDocs"])
